@@ -161,7 +161,9 @@ func smudgeCommand(cmd *cobra.Command, args []string) {
 		if errors.IsNotAPointerError(err) {
 			fmt.Fprintln(os.Stderr, err.Error())
 		} else {
-			Error(err.Error())
+			// Nothing usable was written to Git: do not let it take
+			// the (empty or partial) output for the smudged file.
+			Exit(err.Error())
 		}
 	} else if possiblyMalformedObjectSize(n) {
 		fmt.Fprintln(os.Stderr, tr.Tr.Get("Possibly malformed smudge on Windows: see `git lfs help smudge` for more info."))
